@@ -13,3 +13,7 @@ P = "C10"
 for _u in list(UNITS.get("C09", [])):
   if _u.name.startswith("finish_connecting_registry_"):
     _n = unit(P, target=_u.target, name="handshake_end_" + _u.name[len("finish_connecting_registry_"):])(_u.fn)
+  # containment when the offending connection is CLOSED: only its own registration goes (a sibling connection of the same
+  # datapath id stays reachable), and the handshake's handlers never close the socket themselves (sixth round: C10_12, C10_13)
+  if _u.name.startswith("disconnect_registry_") or _u.name == "barrier_reply_finishes_only_for_the_barriers_xid":
+    _n = unit(P, target=_u.target, name="closing_the_offender_" + _u.name)(_u.fn)
